@@ -77,7 +77,9 @@ func knownType(name string) bool {
 func lambdaSrc(o Obj) bool { return o.K == "src" && strings.HasPrefix(o.S, "(lambda") }
 
 // multiDim: an array of rank other than 1, built from source.
-func multiDim(o Obj) bool { return o.K == "src" && strings.HasPrefix(o.S, "(make-array '(") }
+func multiDim(o Obj) bool {
+	return o.K == "arr" || (o.K == "src" && strings.HasPrefix(o.S, "(make-array '("))
+}
 
 func bindX(c TCase) (*slip.Scope, slip.Object, string) {
 	scope := slip.NewScope()
